@@ -10,6 +10,12 @@ integer position of the timeline** (first .. last time point) in these forms: Py
 numpy integer scalar, one numpy array of all positions, the same positions as a list, a permuted
 array with repetitions, a one-element array and an empty array.
 
+Space `inplace-then-query`: between two rounds of queries the elements are changed WITHOUT
+Part.add / Part.remove - Part.use_musical_beat(dict) / use_notated_beat / set_musical_beat_per_ts
+(they rewrite TimeSignature.musical_beats in place) and plain attribute assignment on time
+signatures, key signatures, clefs and measures - so a map (or a note-array column) that still
+reports what was in force at an earlier query is seen (tables must be gathered on each access).
+
 Clauses (names as they appear in violation records)
   time-signature-in-force / key-signature-in-force / clef-in-force
         value of the latest element starting at or before t; of the first element for positions
@@ -35,7 +41,8 @@ from mc import c10_model as M
 
 PID = "C10"
 RULE = (
-    "a case is one part built by a sequence of Part.add / remove / set_quarter_duration operations in 1-3 phases; "
+    "a case is one part built by a sequence of Part.add / remove / set_quarter_duration operations (space inplace-then-query: "
+    "also use_musical_beat / use_notated_beat / set_musical_beat_per_ts and attribute assignments on the elements) in 1-4 phases; "
     "after each phase all compared maps are queried at every integer timeline position in 9 argument forms; each "
     "(part after a phase) is one state; non-trivial = at least one compared kind has an element or a default is exercised "
     "on a part with >= 2 positions"
@@ -45,6 +52,14 @@ ASSUMPTIONS = [
     "clef signs are compared through partitura's own sign<->integer table after checking that the table is a bijection; "
     "key modes are compared as 1 (major, missing mode, 'none') / -1 (minor) as documented in key_mode_to_int",
     "musical beats are the documented 2/3/4 for 6/9/12 beats and `beats` otherwise",
+    "musical beats are an attribute of the time signature element: set_musical_beat_per_ts(dict) / use_musical_beat(non-empty dict) "
+    "give every signature the dict's value for its 'beats/beat_type' string and the default otherwise, use_notated_beat() "
+    "resets all to the default, use_musical_beat() alone changes no value (all as documented); sequences where the "
+    "documentation is silent are not generated (see the bounds of inplace-then-query)",
+    "in-place assignment of an attribute of an element that stays in the timeline changes what is 'in force' from then on "
+    "(the anchors say the tables are gathered from the timeline on each property access)",
+    "while musical beats are in use the measure family is compared only with MEASURES_WITH_MUSICAL_BEAT=True (unchanged tree: "
+    "pickup correction counts notated beats of musical-beat length, proposed_fixes/C10-s-pickup-correction-musical-beat.diff)",
     "number of staves of a part = highest staff number of a note or clef (at least 1); clef_map returns one row per staff "
     "(staff, sign code, line, octave change with None read as 0), array queries stack the rows per staff",
     "measure clauses are only generated for contiguous measures tiling first..last time point; positions at the end of the "
@@ -60,6 +75,13 @@ ASSUMPTIONS = [
     "trusted: numpy, scipy.interpolate",
 ]
 CHUNK = 40
+
+# While Part.use_musical_beat is in effect the unchanged tree moves the start of a COMPLETE first
+# measure (pickup correction computed as notated beats x divisions per MUSICAL beat; see
+# proposed_fixes/C10-s-pickup-correction-musical-beat.diff and the final report of the in-place
+# spaces). Until that fix is in the tree the measure family is not compared in states where
+# musical beats are in use; set to True once it is applied (the check then passes with it).
+MEASURES_WITH_MUSICAL_BEAT = True
 
 MAPS = {
     "ts": ["time_signature_map"],
@@ -107,6 +129,15 @@ def impl_apply(part, objs, op):
         part.remove(objs[op[1]])
     elif k == "setq":
         part.set_quarter_duration(op[1], op[2])
+    elif k == "set":
+        # in place: plain attribute assignment on an element that stays in the timeline
+        setattr(objs[op[1]], op[2], op[3])
+    elif k == "umb":
+        part.use_musical_beat(dict(op[1]))
+    elif k == "unb":
+        part.use_notated_beat()
+    elif k == "smb":
+        part.set_musical_beat_per_ts(dict(op[1]))
     else:
         raise ValueError(op)
     objs.append(o)
@@ -368,19 +399,27 @@ def eval_case(case):
         T = list(range(pts[0], pts[-1] + 1))
         nst = st.nstaves()
         ctx = "phase %d" % pi
-        for fam in case["maps"]:
+        if st.inplace:
+            ctx += " (after %s)" % ("; ".join(repr(o) for o in ph) if len(repr(ph)) < 120 else "%d ops" % len(ph))
+        maps = list(case["maps"])
+        if st.musical_mode and not MEASURES_WITH_MUSICAL_BEAT and "meas" in maps:
+            maps.remove("meas")
+        for fam in maps:
             if fam == "meas" and not st.of("meas"):
                 continue
             for name in MAPS[fam]:
                 res.transitions += check_map(res, part, name, T, expected_fn(name, st, codes), nst, ctx)
-        res.transitions += check_note_array(res, part, st, case["maps"], ctx)
-        meas = M.ref_measures(st) if "meas" in case["maps"] else []
+        res.transitions += check_note_array(res, part, st, maps, ctx)
+        meas = M.ref_measures(st) if "meas" in maps else []
         pk = bool(meas) and meas[0][0] != meas[0][3]
         out = "ts%d ks%d clefstaves%s/%d meas%d pickup%d phases%d" % (
             min(len(st.of("ts")), 3) if "ts" in case["maps"] else -1,
             min(len(st.of("ks")), 3) if "ks" in case["maps"] else -1,
             len(set(o[2] for o in st.of("clef"))) if "clef" in case["maps"] else -1, nst,
             min(len(meas), 3), int(pk), len(case["phases"]))
+        if "inplace" in case:
+            out += " inplace%d musical%d mb%s" % (min(st.inplace, 3), int(st.musical_mode),
+                                                  "".join(str(min(r[3], 9)) for r in st.ts_rows()[:2]))
         if len(T) >= 2:
             nontrivial = True
         if res.violations:
@@ -485,6 +524,28 @@ def spaces(tier, seed):
                "one edit (add a time signature, key signature, clef on staff 1/2/3 at every position, a note on a new staff, an "
                "appended measure, or remove one element), then queried again; thorough: every ordered pair of edits (3 phases) and "
                "timeline 0..8" + (" (blocks of 16)" if not thorough else "")))
+    # -- in-place changes (no Part.add / Part.remove between two queries)
+    allmaps = ("ts", "ks", "clef", "meas")
+    sp.append(Space(
+        "inplace-then-query",
+        _blocked(lambda: itertools.chain(M.gen_inplace_single(), M.gen_inplace_ts(2),
+                                         M.gen_inplace_ts(3, alphabet=("mode",), min_depth=3)),
+                 lambda: itertools.chain(M.gen_inplace_ts(2, alphabet=("mode", "ts", "other"), maps=allmaps),
+                                         M.gen_inplace_ts(3)), tier, seed, nb=32),
+        bounds="5 base parts (6/8+2/4 with two of every kind on two staves, quarter=2; one 3/4 after the first point; 3/4+4/4 with "
+               "pickup; one 12/8; no signature) are queried, then changed WITHOUT Part.add/Part.remove and queried again after every "
+               "step. Steps: use_musical_beat({} | dict naming all / the first / the last signature), use_notated_beat(), "
+               "set_musical_beat_per_ts({} | 2 dicts); per time signature: assign beats (6<->2, 3<->9, 4<->12: same documented "
+               "musical beats), beat_type (4<->8), beats+musical_beats (5, 5), musical_beats alone, Part.remove; Part.add of a 5/4 "
+               "at 3 free positions; per key signature: assign fifths, mode; per clef: sign, line+octave_change, staff (1<->2); per "
+               "measure: number; Part.add of a key signature / clef. core: every single step with all map families; every "
+               "sequence of 2 steps over the beat-mode + time-signature steps and every sequence of 3 beat-mode steps with the "
+               "time-signature map and ts_* note-array columns; thorough: every sequence of 2 steps over the whole alphabet with "
+               "all families, every sequence of 3 beat-mode + time-signature steps. Not generated (documentation open): "
+               "use_musical_beat while already in use / use_notated_beat while not, use_musical_beat() on hand-set musical "
+               "beats, beats assigned without a documented-consistent musical_beats, a signature added after a dict naming it, "
+               "in-place changes of the number of staves; measure family only where the pickup rule has one reading and "
+               "(MEASURES_WITH_MUSICAL_BEAT=False) not while musical beats are in use" + (" (blocks of 32)" if not thorough else "")))
     return sp
 
 
